@@ -1,3 +1,109 @@
+(* C04 - property theorems only: statement, [exact lemma], Print Assumptions; Examples show the
+   hypotheses are satisfiable (non-vacuity). *)
 From ASV Require Import Loc.
-Theorem C04_placeholder : True. Proof. exact I. Qed.
-Print Assumptions C04_placeholder.
+From ASV.C04 Require Import Proofs.
+
+(* two locations overlap iff they share a base *)
+Theorem C04_overlap : forall a b, Forall wf_part a -> Forall wf_part b ->
+  (overlap a b = true <-> exists x, base_of a x /\ base_of b x).
+Proof. exact overlap_spec. Qed.
+Print Assumptions C04_overlap.
+
+Theorem C04_overlap_sym : forall a b, Forall wf_part a -> Forall wf_part b ->
+  overlap a b = overlap b a.
+Proof. exact overlap_sym. Qed.
+Print Assumptions C04_overlap_sym.
+
+(* one contains another iff each part of the inner lies inside one part of the outer *)
+Theorem C04_contains : forall o i, Forall wf_part i ->
+  (contains o i = true <->
+   Forall (fun ip => exists op, In op o /\ ps op <= ps ip /\ pe ip <= pe op) i).
+Proof. exact contains_spec. Qed.
+Print Assumptions C04_contains.
+
+Theorem C04_contains_bases : forall o i, Forall wf_part i -> contains o i = true ->
+  forall x, base_of i x -> base_of o x.
+Proof. exact contains_bases. Qed.
+Print Assumptions C04_contains_bases.
+
+(* distance: 0 when overlapping ... *)
+Theorem C04_distance_overlap : forall a b w, overlap a b = true -> dist a b w = 0.
+Proof. exact dist_overlap. Qed.
+Print Assumptions C04_distance_overlap.
+
+(* ... otherwise, on a line, the number of bases between the closest pair of parts ... *)
+Theorem C04_distance_line : forall a b,
+  a <> [] -> b <> [] -> Forall wf_part a -> Forall wf_part b -> overlap a b = false ->
+  (forall p q, In p a -> In q b -> dist a b None <= gap p q) /\
+  (exists p q, In p a /\ In q b /\ dist a b None = gap p q).
+Proof. exact dist_line_spec. Qed.
+Print Assumptions C04_distance_line.
+
+(* ... and on a ring the shorter way round, for every record length *)
+Theorem C04_distance_ring : forall N a b,
+  a <> [] -> b <> [] -> Forall wf_part a -> Forall wf_part b -> in_record N a -> in_record N b ->
+  overlap a b = false ->
+  (forall p q, In p a -> In q b -> dist a b (Some N) <= between_ring N p q) /\
+  (exists p q, In p a /\ In q b /\ dist a b (Some N) = between_ring N p q).
+Proof. exact dist_ring_spec. Qed.
+Print Assumptions C04_distance_ring.
+
+Theorem C04_distance_part_sym : forall a b w, pdist a b w = pdist b a w.
+Proof. exact pdist_sym. Qed.
+Print Assumptions C04_distance_part_sym.
+
+(* connecting single-part locations on a line gives the exact hull *)
+Theorem C04_connect_line : forall locs, locs <> [] -> simple_locs locs -> Forall wf_loc locs ->
+  exists h, connect_locations locs None = Ok [h] /\
+    ps h = lmin (map lstart locs) /\ pe h = lmax (map lend locs) /\
+    pst h = common_strand locs /\ ps h < pe h.
+Proof. exact connect_line_simple. Qed.
+Print Assumptions C04_connect_line.
+
+Theorem C04_connect_line_covers : forall locs h, simple_locs locs ->
+  ps h = lmin (map lstart locs) -> pe h = lmax (map lend locs) ->
+  forall l x, In l locs -> base_of l x -> ps h <= x < pe h.
+Proof. exact hull_covers. Qed.
+Print Assumptions C04_connect_line_covers.
+
+Theorem C04_connect_line_tight : forall locs h, locs <> [] -> simple_locs locs ->
+  ps h = lmin (map lstart locs) -> pe h = lmax (map lend locs) ->
+  (exists l p, In l locs /\ l = [p] /\ ps p = ps h) /\
+  (exists l p, In l locs /\ l = [p] /\ pe p = pe h).
+Proof. exact hull_tight. Qed.
+Print Assumptions C04_connect_line_tight.
+
+(* shifting a single part on a ring rotates the same bases, keeps length and strand, and the
+   result is well-formed (at most two parts, inside the record) - for every record length and
+   every offset of less than one full turn *)
+Theorem C04_offset_simple_ring : forall N p off,
+  0 < N -> 0 <= ps p -> ps p < pe p -> pe p <= N -> - N < off < N -> pe p - ps p < N ->
+  exists r, offset_location [p] off (Some N) = Ok r /\
+    llen r = pe p - ps p /\
+    Forall (fun q => pst q = pst p /\ 0 <= ps q /\ ps q < pe q /\ pe q <= N) r /\
+    (forall y, 0 <= y < N -> (base_of r y <-> exists x, ps p <= x < pe p /\ y = rot N off x)).
+Proof. exact offset_simple_ring. Qed.
+Print Assumptions C04_offset_simple_ring.
+
+(* extending a single part on a linear record covers exactly the bases within the distance, clipped *)
+Theorem C04_extend_line_simple : forall p d N,
+  0 <= ps p -> ps p < pe p -> pe p <= N -> 0 <= d ->
+  extend_location [p] d N false = Ok [mkPart (Z.max 0 (ps p - d)) (Z.min (pe p + d) N) (pst p)].
+Proof. exact extend_line_simple. Qed.
+Print Assumptions C04_extend_line_simple.
+
+(* ---- non-vacuity ---- *)
+Example C04_ex_ring_distance :
+  let a := [mkPart 1 2 1] in let b := [mkPart 2 3 1; mkPart 0 1 1] in
+  Forall wf_part a /\ Forall wf_part b /\ in_record 3 a /\ in_record 3 b /\
+  overlap a b = false /\ dist a b (Some 3) = 0.
+Proof. cbn. repeat split; repeat constructor; unfold wf_part; cbn; lia. Qed.
+
+Example C04_ex_offset :
+  offset_location [mkPart 5 10 (-1)] 10 (Some 20) = Ok [mkPart 15 20 (-1)] /\
+  offset_location [mkPart 5 10 1] 12 (Some 20) = Ok [mkPart 17 20 1; mkPart 0 2 1].
+Proof. split; reflexivity. Qed.
+
+Example C04_ex_connect :
+  connect_locations [[mkPart 5 10 1]; [mkPart 2 7 1]; [mkPart 20 30 1]] None = Ok [mkPart 2 30 1].
+Proof. reflexivity. Qed.
